@@ -168,7 +168,9 @@ pub fn gen_mut(r: &mut Rng, live: &Live, p: Profile) -> Q {
                 0 => { // insert-or-update through ids
                     let ids = gen_ids(r, live, true, 3, true);
                     let n = if let Qids::Ids(l) = &ids { l.len() } else { 1 };
-                    Q::InsertNodes(0, gen_qvalues(r, n), vec![], ids)
+                    // insert-or-update may also (re)assign aliases of the existing nodes
+                    let aliases: Vec<String> = if r.chance(1, 2) { (0..r.below(n as u64 + 1)).map(|_| gen_alias(r, live, 4)).collect() } else { vec![] };
+                    Q::InsertNodes(0, gen_qvalues(r, n), aliases, ids)
                 }
                 1 | 2 => { // with aliases
                     let n = r.range(1, 3) as usize;
